@@ -49,6 +49,8 @@ def generate(rng, tier):
             v = nd[2][1]
             c = replace_at(c, p, [nd[0], nd[1], e_int(rng.choice([v - 1, v - 2, 0, -1, v + 1]))])
         out.append(c)
+    from . import rare
+    out += rare.vftable_cases()
     from .. import o4exec
     return out + o4exec.exec_worlds(rng, 10 if tier == 'quick' else 200, **dict(p_vftable=0.85, p_impl=0.2, p_index=0.5, p_vft_size=0.4))
 
@@ -62,6 +64,7 @@ def judge(c, impl, model):
     cid = c[1]
     info = {'dist': []}
     fs = k_compare(ID, c, impl, model)
+    fs += must_reject_findings(ID, c, impl)
     cls = outcome_class(impl.get('o3'))
     count(info, 'impl-' + cls)
     ps = find(c, 'ps')[1]
